@@ -390,9 +390,18 @@ def _pipeline(ob, timeout_ms, tac, retry_ms, use_cvc5):
         except Exception:
             pass
     if status == "unknown" and model1 is not None:
-        # satisfiable without the quantified axioms, undecided with them: candidate counter-model
-        status, reason = "refuted", "candidate model (quantified axioms not decided): " + str(reason)
+        # satisfiable without the quantified axioms, undecided with them: only a candidate counter-model - still undecided
+        reason = "candidate model (quantified axioms not decided): " + str(reason)
     return status, backend, time.time() - t0, model, reason
+
+
+def _retry(ob, timeout_ms, seed):
+    """second chance for an undecided obligation: the full query with a fresh seed and a long budget (only `unsat` counts)"""
+    t0 = time.time()
+    r, _, _, _ = _solve_cli(ob.smt2, timeout_ms, seed)
+    if r != "unsat" and os.environ.get("PYVC_NO_INST") != "1" and seed % 2 == 1:
+        r = _solve_instantiated(ob.smt2, timeout_ms)
+    return r, time.time() - t0
 
 
 def discharge(obligations, timeout_ms=20000, tactic=None, retry_ms=None, use_cvc5=True, per_ob_tactic=None):
@@ -407,6 +416,20 @@ def discharge(obligations, timeout_ms=20000, tactic=None, retry_ms=None, use_cvc
     for ob, fu in zip(obligations, futs):
         status, backend, t, model, reason = fu.result()
         results.append(Result(ob.name, status, backend, t, model, reason, ob))
+    # second phase: undecided obligations get a portfolio of long runs with other seeds (quantifier instantiation is
+    # sensitive to the search order and to machine load; a proof, when it exists, is usually found quickly by some seed)
+    und = [i for i, r in enumerate(results) if r.status == "unknown"]
+    if und and os.environ.get("PYVC_NO_RETRY") != "1":
+        long_ms = max(4 * timeout_ms, 120000)
+        jobs = [(i, ex.submit(_retry, obligations[i], long_ms, seed)) for i in und[:40] for seed in (11, 12, 13, 14)]
+        for i, fu in jobs:
+            try:
+                r, t = fu.result()
+            except Exception:
+                continue
+            if r == "unsat" and results[i].status != "proved":
+                o = results[i]
+                results[i] = Result(o.name, "proved", "z3-retry", o.time + t, None, "", o.ob)
     return results
 
 
